@@ -10,6 +10,7 @@ def main():
     sys.set_int_max_str_digits(0)
     prop = sys.argv[1]
     job = json.loads(sys.stdin.read())
+    job["prop"] = prop.upper()
     want = str(job.get("hashseed", 0))
     if os.environ.get("PYTHONHASHSEED") != want:
         print(json.dumps({"error": f"PYTHONHASHSEED is {os.environ.get('PYTHONHASHSEED')}, job wants {want}"}))
